@@ -251,6 +251,17 @@ def gPre : GSys := (GSys.init cfg 0).run (H.take 8)
 theorem gPre_reach : gPre.Reach := GSys.reach_of_wfB _ _ _ (by decide +kernel)
 example : gPre.GInv ∧ gPre.sys.cfg.usage = true ∧ gPre.sys.cfg.blur = some 7 :=
   ⟨gPre_reach.ginv, by decide +kernel, by decide +kernel⟩
+/-- … and says: the nameplate record written by the sweep (started 952) lies less than 56 ticks before
+    the true time 1003 of its only side row, the mailbox record (1008) before 1017 -/
+example : ∃ recs, (gPre.step (.sweep 200001 false)).sys.udb.nameplates = gPre.sys.udb.nameplates ++ recs ∧
+    ∀ r ∈ recs, ∃ n ∈ (gPre.sys.usageBase (.sweep 200001 false)).retiredNp (gPre.step (.sweep 200001 false)).sys.db,
+      ∃ m, IsMin ((gPre.sys.db.npSidesOf n.id).map (·.added)) m ∧
+        ((7 : Nat) : Int) * (Generated.ticksPerSecond : Int) ∣ r.started ∧ r.started ≤ m ∧
+          m < r.started + ((7 : Nat) : Int) * (Generated.ticksPerSecond : Int) :=
+  (C16_records_close_to_truth gPre_reach.ginv (by decide +kernel) (b := 7) (by decide +kernel) (by decide)
+    (.sweep 200001 false) rfl).1
+example : (gPre.sys.db.npSides.map (·.added), gPre.sys.db.mbSides.map (·.added)) = ([1003], [1017]) := by
+  decide +kernel
 
 end C16bExample
 end Wormhole
